@@ -484,6 +484,33 @@ def list_units(C):
     return [label for label, _ in C.cases(S)]
 
 
+_KNOWN = None
+
+
+def known_match(props, cname, label, args):
+    """id of the open known finding that explains this failure (contract, label prefix, optional `when` predicate
+    over the concrete arguments), or None."""
+    global _KNOWN
+    if _KNOWN is None:
+        path = os.path.join(os.path.dirname(os.path.dirname(os.path.abspath(__file__))), 'known_findings.json')
+        try:
+            with open(path) as f:
+                _KNOWN = [e for e in json.load(f).get('findings', []) if e.get('status') == 'open']
+        except FileNotFoundError:
+            _KNOWN = []
+    for e in _KNOWN:
+        if e.get('contract') != cname or not any(label.startswith(l) for l in e.get('labels', [''])):
+            continue
+        if e.get('when'):
+            try:
+                if not eval(e['when'], {'args': args, '__builtins__': __builtins__}):
+                    continue
+            except Exception:
+                continue
+        return e['id']
+    return None
+
+
 def _source_of(C):
     try:
         if C.target is None:
@@ -504,11 +531,19 @@ def verify_unit(cname, case_label, tier, seed):
         # bounded stand-in: the contract is evaluated on the real function for every input of an enumerated scope
         n = 0
         failures = []
+        n_known = n_new = 0
         for args in C.bounded(tier):
             n += 1
             bad, desc = check_concrete(C, args, {})
-            if bad and len(failures) < 3:
-                failures.append({'violated': bad, 'native_outcome': desc, 'args': jsonable(args), 'ghosts': jsonable({})})
+            if bad:
+                # keep a few failures that a known finding explains and a few that none explains, so that a known
+                # finding can never hide a different violation of the same contract
+                k = known_match(C.props, cname, bad[0], args)
+                if (k and n_known < 2) or (not k and n_new < 3):
+                    failures.append({'violated': bad, 'native_outcome': desc, 'args': jsonable(args),
+                                     'ghosts': jsonable({}), 'known': k})
+                n_known += 1 if k else 0
+                n_new += 0 if k else 1
         return {'contract': cname, 'case': case_label, 'props': C.props, 'obligations': [], 'paths': 0,
                 'feasible_paths': 0, 'status': 'sampled', 'notes': [], 'vacuity': None,
                 'sampled': {'evaluations': n, 'tried': n, 'failures': failures, 'exhaustive': True,
